@@ -49,7 +49,7 @@ func hRange15(tag string, lo, hi int) InclusiveRange {
 }
 
 // VerifC15_ContainsTime: for every accepted interval specification with one range per
-// field (thorough: two for times and days of month; each field possibly absent) and every minute of 1970..2099,
+// field (thorough: two time-of-day ranges for intervals without a location; each field possibly absent) and every minute of 1970..2099,
 // ContainsTime equals the documented meaning: minute-of-day in a [start,end) range,
 // weekday/month/year in an inclusive range, day of month in a range whose negative
 // bounds count from the month's end and which is clamped to the month; an absent
@@ -66,7 +66,7 @@ func VerifC15_ContainsTime() {
 	var ti TimeInterval
 	nr := 1             // ranges per field ...
 	hasLoc := vfBool("hasLocation")
-	nr2 := 1 // ... two for the fields with the richer semantics (times, days of month) in the thorough tier, for intervals without a location
+	nr2 := 1 // ... two time-of-day ranges in the thorough tier, for intervals without a location
 	if !hasLoc {
 		nr2 += vfTier()
 	}
@@ -87,7 +87,7 @@ func VerifC15_ContainsTime() {
 		}
 	}
 	if hasDOM {
-		for i := 0; i < nr2; i++ {
+		for i := 0; i < nr; i++ {
 			r := hRange15("dom", -31, 31)
 			vfAssume(r.Begin != 0 && r.End != 0)
 			vfAssume(!(r.Begin < 0 && r.End > 0))
